@@ -53,6 +53,24 @@ mod verif_k {
         assert!(int_payload_ok(&r.payload, x));
     }
 
+    // leaf clause used by the ldap3-level units: reading a non-negative INTEGER's contents as an unsigned
+    // big-endian number (lber::parse::parse_uint) gives the value back
+    #[kani::proof]
+    #[kani::unwind(10)]
+    fn uint_of_nonneg_int_octets() {
+        let x: i64 = kani::any();
+        kani::assume(x >= 0);
+        let r = i_e_into_structure(2, TagClass::Universal, x);
+        match r.payload {
+            PL::P(v) => match ::parse::parse_uint(&v) {
+                Ok((_, u)) => assert!(u == x as u64),
+                Err(_) => assert!(false),
+            },
+            PL::C(_) => assert!(false),
+        }
+        kani::cover!(x > 0xffff_ffff, "five-octet value reachable");
+    }
+
     // the same obligation through the public trait methods (Integer and Enumerated share the function)
     #[kani::proof]
     #[kani::unwind(10)]
